@@ -1066,7 +1066,10 @@ class COO(SparseArray, NDArrayOperatorsMixin):  # lgtm [py/missing-equals]
         if self.shape == shape:
             return self
         if any(d == -1 for d in shape):
-            extra = int(self.size / np.prod([d for d in shape if d != -1]))
+            known = reduce(operator.mul, (d for d in shape if d != -1), 1)
+            if known == 0 or self.size % known != 0:
+                raise ValueError(f"cannot reshape array of size {self.size} into shape {shape}")
+            extra = self.size // known
             shape = tuple([d if d != -1 else extra for d in shape])
 
         if self.size != reduce(operator.mul, shape, 1):
